@@ -666,6 +666,57 @@ func checkC18(w *World, c *Check, tier string) {
 					foreign = otherProp
 				}
 			}
+			// a guard that compares to.f with from.f ("skip the write when they are already equal"): the comparison is an
+			// equivalence (IRI equivalence ignores fragment, case, query order, a trailing slash), so the merged value keeps
+			// to's spelling although the property says it carries from's value afterwards
+			cross := ""
+			for _, g := range a.guards {
+				hasTo, hasFrom := false, false
+				for _, r := range g.refs {
+					if len(r.Names) == 0 || r.Names[0] != fname {
+						continue
+					}
+					if r.Root == toRoot {
+						hasTo = true
+					}
+					if r.Root == fromRoot {
+						hasFrom = true
+					}
+				}
+				if hasTo && hasFrom {
+					cross = g.desc
+				}
+			}
+			if cross == "" {
+				// the comparison may be a call: to.ID.Equals(from.ID, …), ItemsEqual(to.X, from.X)
+				for _, g := range rawGuards(a.instr.Block()) {
+					call, isCall := g.cond.(*ssa.Call)
+					if !isCall {
+						continue
+					}
+					hasTo, hasFrom := false, false
+					for _, arg := range allArgs(call) {
+						for _, r := range pr.prov(arg).list() {
+							if len(r.Names) == 0 || r.Names[0] != fname {
+								continue
+							}
+							if r.Root == toRoot {
+								hasTo = true
+							}
+							if r.Root == fromRoot {
+								hasFrom = true
+							}
+						}
+					}
+					if hasTo && hasFrom {
+						cross = "a comparison of the two by " + shortVal(call)
+					}
+				}
+			}
+			if cross != "" && a.helper == nil {
+				c.bad("C18.merge", key, w.InstrPos(a.instr), fmt.Sprintf("to.%s is only overwritten when it does not already compare equal to from.%s (%s): the comparison is an equivalence, not identity, so after a successful merge to.%s can still differ from from.%s", fname, fname, cross, fname, fname))
+				continue
+			}
 			if foreign != "" {
 				c.bad("C18.merge", key, w.InstrPos(a.instr), fmt.Sprintf("whether to.%s takes from.%s is decided by a test of from.%s, a different property: an update that sets only %s is not merged, and one that sets only %s overwrites to.%s with the unset value", fname, fname, foreign, fname, foreign, fname))
 				continue
